@@ -172,7 +172,7 @@ theorem lfix_bin_intro {op : BinOp} {l r : Arg} (h1 : isBad l = false) (h2 : isB
     exact hn
 
 theorem lfix_neg {v : Arg} (h : simplifyRaw (.neg v) = .ok (false, .neg v)) :
-    isBad v = false ∧ isC v = false ∧ ∀ x y, v ≠ .bin .sub x y := by
+    isBad v = false ∧ isC v = false ∧ (∀ x y, v ≠ .bin .sub x y) ∧ (∀ w, v ≠ .neg w) := by
   cases v with
   | bin op x y =>
     cases op
@@ -182,20 +182,25 @@ theorem lfix_neg {v : Arg} (h : simplifyRaw (.neg v) = .ok (false, .neg v)) :
       | ok p => simp [hn] at h
       | err e => simp [hn] at h
       | panic => simp [hn] at h
-    all_goals exact ⟨rfl, rfl, fun x y hxy => by cases hxy⟩
+    all_goals exact ⟨rfl, rfl, fun x y hxy => (by cases hxy), fun w hw => (by cases hw)⟩
   | const c =>
     simp only [simplifyRaw] at h
     split at h <;> simp at h
   | str s => simp [simplifyRaw] at h
   | addr s => simp [simplifyRaw] at h
   | seq s => simp [simplifyRaw] at h
-  | ident s => exact ⟨rfl, rfl, fun x y hxy => by cases hxy⟩
-  | neg s => exact ⟨rfl, rfl, fun x y hxy => by cases hxy⟩
-  | not s => exact ⟨rfl, rfl, fun x y hxy => by cases hxy⟩
-  | func n s => exact ⟨rfl, rfl, fun x y hxy => by cases hxy⟩
+  | ident s => exact ⟨rfl, rfl, fun x y hxy => (by cases hxy), fun w hw => (by cases hw)⟩
+  | neg s =>
+    rw [simplifyRaw_neg_neg] at h
+    cases hn : neutralizeRaw (.neg (.neg s)) with
+    | ok p => simp [hn] at h
+    | err e => simp [hn] at h
+    | panic => simp [hn] at h
+  | not s => exact ⟨rfl, rfl, fun x y hxy => (by cases hxy), fun w hw => (by cases hw)⟩
+  | func n s => exact ⟨rfl, rfl, fun x y hxy => (by cases hxy), fun w hw => (by cases hw)⟩
 
-theorem lfix_neg_intro {v : Arg} (h1 : isBad v = false) (h2 : isC v = false) (h3 : ∀ x y, v ≠ .bin .sub x y) :
-    simplifyRaw (.neg v) = .ok (false, .neg v) := by
+theorem lfix_neg_intro {v : Arg} (h1 : isBad v = false) (h2 : isC v = false) (h3 : ∀ x y, v ≠ .bin .sub x y)
+    (h4 : ∀ w, v ≠ .neg w) : simplifyRaw (.neg v) = .ok (false, .neg v) := by
   cases v with
   | bin op x y =>
     cases op
@@ -206,7 +211,7 @@ theorem lfix_neg_intro {v : Arg} (h1 : isBad v = false) (h2 : isC v = false) (h3
   | addr s => simp [isBad] at h1
   | seq s => simp [isBad] at h1
   | ident s => rfl
-  | neg s => rfl
+  | neg s => exact absurd rfl (h4 s)
   | not s => rfl
   | func n s => rfl
 
@@ -253,9 +258,10 @@ theorem NF_neutralize_both :
     simp only [NF] at h
     have hv := (lfix_neg h.2).2.2
     have : neutralizeRaw (.neg v) = .ok (false, .neg v) := by
-      rcases neutralizeRaw_neg_cases v with h0 | ⟨x, y, rfl, _⟩
+      rcases neutralizeRaw_neg_cases v with h0 | ⟨x, y, rfl, _⟩ | ⟨w, rfl, _⟩
       · exact h0
-      · exact absurd rfl (hv x y)
+      · exact absurd rfl (hv.1 x y)
+      · exact absurd rfl (hv.2 w)
     simp only [neutralize, ih h.1, this, Bool.or_self]
   case not => intro v ih h; simp only [NF] at h; simp only [neutralize, ih h.1]
   case addr => intro v ih h; simp only [NF] at h; simp only [neutralize, ih h.1]
@@ -367,7 +373,7 @@ section
 variable {isReg : Bytes → Bool}
 
 theorem NF_neg_inv {n : Arg} (h : NF isReg (.neg n)) :
-    NF isReg n ∧ isBad n = false ∧ isC n = false ∧ ∀ x y, n ≠ .bin .sub x y := by
+    NF isReg n ∧ isBad n = false ∧ isC n = false ∧ (∀ x y, n ≠ .bin .sub x y) ∧ (∀ w, n ≠ .neg w) := by
   simp only [NF] at h
   exact ⟨h.1, lfix_neg h.2⟩
 
@@ -378,7 +384,8 @@ theorem stripNeg_NF (r : Arg) (hr : NF isReg r) (b : Bool) :
     (∀ op, additive op → fnd op (stripNeg b r).2.1 = fnd op r) := by
   induction r using Arg.ind generalizing b with
   | neg n ih =>
-    obtain ⟨hn, _, hc, hs⟩ := NF_neg_inv hr
+    obtain ⟨hn, _, hc, hs, hs2⟩ := NF_neg_inv hr
+    clear hs2
     obtain ⟨i1, i2, i3, i4, i5⟩ := ih hn (!b)
     simp only [stripNeg]
     refine ⟨i1, i2, by rw [i3, hc]; rfl, fun x y hxy => ?_, fun op hop => (by rw [i5 op hop, fnd_neg hop hc])⟩
@@ -546,7 +553,7 @@ theorem neutralizeBin_NF {op : BinOp} {l r : Arg} (hl : NF isReg l) (hr : NF isR
         rw [this]
         refine ⟨?_, rfl⟩
         simp only [NF]
-        exact ⟨hr', lfix_neg_intro b2 hcr' (h0' (by rw [hlc, hn2.2]) hn2.1)⟩
+        exact ⟨hr', lfix_neg_intro b2 hcr' (h0' (by rw [hlc, hn2.2]) hn2.1) (hstr (.inr hn2.1)).1⟩
       · have hmain : neutralMain op' l r' = .bin op' l r' := by
           unfold neutralMain; simp only [hcl, hn1, if_false, hn2]
         rw [hmain]
@@ -688,6 +695,18 @@ theorem neutralizeRaw_bin_NF {op : BinOp} {l r : Arg} (hl : NF isReg l) (hr : NF
       exact neutralizeBin_NF hl hr hlr hb hm (fun e1 e2 x y e3 => h2 ⟨e2, e1, x, y, e3⟩) he
     · exact absurd ⟨h3, h4, x, y, h5⟩ h2
 
+/-- `neutralize_raw` leaves an `NF` tree alone -/
+theorem NF_neutralizeRaw {a : Arg} (h : NF isReg a) : neutralizeRaw a = .ok (false, a) := by
+  cases a with
+  | bin op l r => exact (lfix_bin (NF_bin_inv h).2.2).2.2.2.1
+  | neg v =>
+    obtain ⟨_, _, _, h3, h4⟩ := NF_neg_inv h
+    rcases neutralizeRaw_neg_cases v with h0 | ⟨x, y, rfl, _⟩ | ⟨w, rfl, _⟩
+    · exact h0
+    · exact absurd rfl (h3 x y)
+    · exact absurd rfl (h4 w)
+  | _ => rfl
+
 /-- `neutralize_raw` on a `Negate` node with an `NF` operand -/
 theorem neutralizeRaw_neg_NF {v : Arg} (hv : NF isReg v) (hc : isC v = false) (hbad : isBad v = false)
     {c : Bool} {a' : Arg} (he : neutralizeRaw (.neg v) = .ok (c, a')) : NF isReg a' ∧ isBad a' = false := by
@@ -696,14 +715,22 @@ theorem neutralizeRaw_neg_NF {v : Arg} (hv : NF isReg v) (hc : isC v = false) (h
     rw [neutralizeRaw_neg_sub] at he
     obtain ⟨_, c', he'⟩ := swapped_ok he
     exact neutralizeBin_swap_NF hv he'
-  · rcases neutralizeRaw_neg_cases v with h0 | ⟨x, y, h3, _⟩
-    · rw [h0] at he
-      simp only [Res.ok.injEq, Prod.mk.injEq] at he
+  · by_cases h4 : ∃ w, v = .neg w
+    · obtain ⟨w, rfl⟩ := h4
+      obtain ⟨hw, hbw, _, _, _⟩ := NF_neg_inv hv
+      rw [neutralizeRaw_neg_neg, NF_neutralizeRaw hw] at he
+      simp only [swapped, Res.ok.injEq, Prod.mk.injEq] at he
       obtain ⟨_, rfl⟩ := he
-      refine ⟨?_, rfl⟩
-      simp only [NF]
-      exact ⟨hv, lfix_neg_intro hbad hc (fun x y e => h2 ⟨x, y, e⟩)⟩
-    · exact absurd ⟨x, y, h3⟩ h2
+      exact ⟨hw, hbw⟩
+    · rcases neutralizeRaw_neg_cases v with h0 | ⟨x, y, h3, _⟩ | ⟨w, h3, _⟩
+      · rw [h0] at he
+        simp only [Res.ok.injEq, Prod.mk.injEq] at he
+        obtain ⟨_, rfl⟩ := he
+        refine ⟨?_, rfl⟩
+        simp only [NF]
+        exact ⟨hv, lfix_neg_intro hbad hc (fun x y e => h2 ⟨x, y, e⟩) (fun w e => h4 ⟨w, e⟩)⟩
+      · exact absurd ⟨x, y, h3⟩ h2
+      · exact absurd ⟨w, h3⟩ h4
 
 end
 
@@ -764,7 +791,7 @@ theorem neutralizeRaw_bin_fnd {ty op : BinOp} {l r : Arg} (hr : NF isReg r) (hty
 theorem neutralizeRaw_neg_fnd {ty : BinOp} {v : Arg} (hv : NF isReg v) (hty : additive ty)
     (hfv : fnd ty v = false) {c : Bool} {a' : Arg} (he : neutralizeRaw (.neg v) = .ok (c, a')) :
     fnd ty a' = false := by
-  rcases neutralizeRaw_neg_cases v with h0 | ⟨x, y, rfl, h0⟩
+  rcases neutralizeRaw_neg_cases v with h0 | ⟨x, y, rfl, h0⟩ | ⟨w, rfl, h0⟩
   · rw [h0] at he
     simp only [Res.ok.injEq, Prod.mk.injEq] at he
     obtain ⟨_, rfl⟩ := he
@@ -775,6 +802,11 @@ theorem neutralizeRaw_neg_fnd {ty : BinOp} {v : Arg} (hv : NF isReg v) (hty : ad
     have hsf : sameFam ty .sub = true := by rcases hty with rfl | rfl <;> rfl
     obtain ⟨fx, fy⟩ := fnd_bin_false (by rfl) hsf (lfix_bin hf).2.2.1 (NF_nb hx) hfv
     exact neutralizeBin_fnd hx (fun _ => hty) fy fx he'
+  · obtain ⟨hw, _, hcw, _, _⟩ := NF_neg_inv hv
+    rw [h0, NF_neutralizeRaw hw] at he
+    simp only [swapped, Res.ok.injEq, Prod.mk.injEq] at he
+    obtain ⟨_, rfl⟩ := he
+    rw [← fnd_neg hty hcw]; exact hfv
 
 end
 
@@ -1329,9 +1361,11 @@ theorem simplifyRaw_neg_NF {v : Arg} (hv : NF isReg v) {c : Bool} {a' : Arg}
       obtain ⟨rfl, rfl⟩ := he
       simp only [NF]; exact ⟨hv, rfl⟩
     | neg s =>
-      simp only [simplifyRaw, Res.ok.injEq, Prod.mk.injEq] at he
-      obtain ⟨rfl, rfl⟩ := he
-      simp only [NF]; exact ⟨hv, rfl⟩
+      obtain ⟨hw, _, _, _, _⟩ := NF_neg_inv hv
+      rw [simplifyRaw_neg_neg, neutralizeRaw_neg_neg, NF_neutralizeRaw hw] at he
+      simp only [swapped, Res.ok.injEq, Prod.mk.injEq] at he
+      obtain ⟨_, rfl⟩ := he
+      exact hw
     | not s =>
       simp only [simplifyRaw, Res.ok.injEq, Prod.mk.injEq] at he
       obtain ⟨rfl, rfl⟩ := he
